@@ -277,6 +277,15 @@ def exc_missing_fragment(repo, tier="quick"):
     for n in inner:
         tt = fl.canon(n.ast.test, n.id)
         pol = _nonzero_order_test(tt, meta, meta_node)
+        gate = n.id
+        if pol is None and tt[0] == "cmp" and len(tt[1]) == 1 and tt[1][0] in ("!=", ">") and tt[2][1] in (("const", 0), ("const", 0.0)) and tt[2][0][0] == "iter":
+            # the loop form of any(order != 0 ...):  for order in <orders>: if order != 0: raise
+            loops_ = enclosing_loops(fi, n.id)
+            if loops_ and loops_[0].id in arm and loops_[0].kind == "for" and (loops_[0].ast.lineno, loops_[0].ast.col_offset) == tuple(tt[2][0][1]):
+                crafted = ("call", None, ("builtin", "any"), (("cmp", tt[1], (tt[2][0][2], tt[2][1])),), ())
+                pol = _nonzero_order_test(crafted, meta, meta_node)
+                if pol is not None:
+                    gate = loops_[0].id      # an empty list of orders passes the loop head, not the test
         if pol is None:
             continue
         raise_label = "T" if pol else "F"
@@ -285,12 +294,12 @@ def exc_missing_fragment(repo, tier="quick"):
         starts = [dst for dst, lab in cfg.succ[g.id] if lab == label]
         leaves = set()
         for s in starts:
-            if s == n.id:
+            if s == gate:
                 continue
-            reach = {s} | cfg.reachable_from(s, avoid={n.id})
+            reach = {s} | cfg.reachable_from(s, avoid={gate})
             leaves |= {x for x in reach if x not in arm}
         dominated = not leaves or all(cfg.nodes[x].kind == "raise" for x in leaves)
-        verdict = (n, ok and dominated, why if not ok else ("a path skips the node without the order test" if not dominated else ""))
+        verdict = (n, ok and dominated, why if not ok else ("a path skips the node without the order test" if not dominated else ""), gate)
         if verdict[1]:
             break
     if verdict and verdict[1]:
@@ -330,7 +339,7 @@ def exc_missing_fragment(repo, tier="quick"):
          obs.append(ob_ok(oid, fi, g.ast, construct="real node: merge_graphs on every path", instance="instantiation", reason="every node with a fragment is instantiated")))
         # every iteration either instantiates the node or has looked at the orders of its own edges: no other way round the loop
         if verdict and verdict[1]:
-            order_test = verdict[0].id
+            order_test = verdict[3]
             bypass = False
             for s in [dst for dst, lab in cfg.succ[head] if lab == "iter"]:
                 if s in merges or s == order_test:
